@@ -9,6 +9,7 @@ import vlib
 
 GOCTLH = os.path.join(vlib.HARNESS, "goctlh")
 STUBS = os.path.join(vlib.HARNESS, "stubs")
+COVERPKG = "github.com/zeromicro/go-zero/tools/goctl/pkg/parser/api/..."
 
 
 def modfile():
@@ -45,9 +46,15 @@ replace github.com/fatih/structtag => %s/structtag
 
 def build():
     out_bin = os.path.join(vlib.HARNESS, "bin", "c20" + ("-" + hashlib.sha256(vlib.REPO.encode()).hexdigest()[:6]
-                                                          if vlib.REPO != "/repo" else ""))
+                                                          if vlib.REPO != "/repo" else "")
+                           + ("-cover" if vlib.COVER else ""))
     os.makedirs(os.path.dirname(out_bin), exist_ok=True)
-    cmd = ["go", "build", "-modfile", modfile(), "-o", out_bin, "./cmd/c20"]
+    cmd = ["go", "build", "-modfile", modfile(), "-o", out_bin]
+    if vlib.COVER:
+        # tools/anchorcov.py: instrument goctl's api packages (and main, or nothing is emitted);
+        # vlib.go_run sets GOCOVERDIR=$VERIF_COVER/bin for the run
+        cmd += ["-cover", "-coverpkg=" + COVERPKG + ",goctlh/..."]
+    cmd.append("./cmd/c20")
     rc, out = vlib.sh(cmd, cwd=GOCTLH, env=vlib.goenv(), timeout=900)
     return (rc == 0), (out_bin if rc == 0 else out)
 
